@@ -25,7 +25,8 @@ TRUSTED = ['Model/Pairing.step is a hand model of TracesParser.feed/_feed_start_
            'lists, KeyError/IndexError, Python evaluation order; paths instead of object references, never stored in '
            'a local) — the section `pairing-ir` tests exactly these two against CPython',
            'the handler call itself is abstract here (a handler may still return None for a continuation '
-           'fragment: C08)']
+           'fragment: C08)',
+           'the generator wrapper and the constructor are no longer hand-modelled: ' + tpir.TRUSTED]
 ASSUMPTIONS = ['event.func_qualifier is debugid & 3 (C01), so the qualifiers_actions lookup cannot raise KeyError; '
                'the model treats every qualifier other than 1 and 2 like NONE/ALL',
                'handlers do not touch on_going_events / on_going_traces and do not mutate the list they are given '
@@ -465,10 +466,21 @@ LEVEL_TEXT = ('Lean theorems for ALL histories: the pairing state machine (model
               'abstracts to Pairing.step, calls parse_event_list with exactly the emitted list and returns the gated '
               'result, and keeps the heap well-formed; run_ir_eq_run_model: for every history from the empty tables '
               'the generated program yields Pairing.outputs / run / stateAfter; parse_event_list_ir_eq_gate: '
-              'parse_event_list is Pairing.gate (IndexError on []).  Model and generated IR are also run '
-              'differentially against the real TracesParser.')
+              'parse_event_list is Pairing.gate (IndexError on []).  The tie now covers the WHOLE class but its handlers: '
+              'feed_generator (feed_generator_ir_eq_model: for every event list, every exception the event generator ends with '
+              'and every heap, the interpreted `for event in generator: ret = self.feed(event); if ret is not None: yield ret` '
+              'IS Pipeline.feedGen over the interpreted feed — same traces in order, an exception of feed ends the stream after '
+              'the traces already delivered, same final state; feed_generator_ir_eq_pairing_model: from a fresh parser it yields '
+              'the non-None answers of Pairing.outputs through the gate) and __init__ (init_ir_eq_model: all ten attributes '
+              'bound, trace_codes / threads_pids / pids_names ARE the caller\'s arguments — shared, not copied —, the two window '
+              'tables are two different new empty dicts = PyIR.World.empty = Pairing.PState.empty, seven pairwise different new '
+              'dicts in all, whole-parser state { pairing := empty, tabs := the caller\'s two tables, the other four empty }; '
+              'init_state_is_model_start: that is TracePipeline.startState; the handler registry: C17 registry_ir_eq_model).  '
+              'Model and generated IR are also run differentially against the real TracesParser (sections pairing-ir, '
+              'feed-generator-ir, init-ir).')
 LEVEL_NOTE = ('Trusted: Lean kernel; the translator tools/gen_pyir.py and the interpreter Model/PyIR as the semantics of '
-              'the Python subset (both tested against CPython by the section pairing-ir); the hand model of feed '
+              'the Python subset, with Model/PyIRTp for the generator wrapper and the constructor (all tested against CPython '
+              'by the sections pairing-ir, feed-generator-ir, init-ir); the hand model of feed '
               '(Model/Pairing) is no longer trusted by itself — it is proved equal to the interpreted source; the '
               'handler call after the gate is abstract (continuation fragments swallowed by handlers: C08).')
 TECHNIQUE = ('Lean 4 refinement proofs (interpreted source IR vs. state machine vs. declarative spec) + translation '
